@@ -108,7 +108,7 @@ def _h_run(W, N, E, D, poison, efn, callsrc, dbl, dup, second, glitch, ss):
     callsrc = _conc(callsrc, 2)
     dbl = _conc(dbl, 2)
     dup = _conc(dup, 3)
-    second = _conc(second, 2)
+    second = _conc(second, 3)           # 0 one run / 1 a second run after a healthy worker has been added / 2 a second run on the pool as it is
     glitch = _conc(glitch, 2)
     sched = Sched(ss)
     env = poolenv.Env(sched, W, D, poison=(poison - 1 if poison else None), double_ready=bool(dbl), glitches=glitch)
@@ -126,7 +126,7 @@ def _h_run(W, N, E, D, poison, efn, callsrc, dbl, dup, second, glitch, ss):
     if second and kind in ("poolerror", "ret"):
         # a second run on the same pool, after one more (healthy) worker has been added: its results must
         # correspond to its own inputs only, whatever the first run left behind
-        sig2 = _second_run(pool, env, E)
+        sig2 = _second_run(pool, env, E, add_worker=(second == 1))
         if sig2 is not None:
             return Outcome(sig2 + ("|after-failed-run" if kind == "poolerror" else "|after-successful-run"), True)
     if kind == "poolerror":
@@ -146,24 +146,29 @@ def _h_run(W, N, E, D, poison, efn, callsrc, dbl, dup, second, glitch, ss):
     return Outcome(None, interesting)
 
 
-def _second_run(pool, env, E):
-    w = poolenv.FakePW(env, len(env.workers))
-    env.workers.append(w)
-    pool._workers[w.id] = w
-    pool._queues[w.id] = w.conn
+def _second_run(pool, env, E, add_worker=True):
+    if add_worker:
+        w = poolenv.FakePW(env, len(env.workers))
+        env.workers.append(w)
+        pool._workers[w.id] = w
+        pool._queues[w.id] = w.conn
     env.deaths_left = 0
     env.poison = None
     inputs = [100, 101]
     try:
         ret = pool.run(iter(inputs), worker_extra_pending_inputs=E)
     except PoolError:
+        if not add_worker:
+            if any(w.alive and not w.failing for w in env.workers):
+                return "c07.second-run.fails-although-a-healthy-worker-survived"
+            return None                   # nobody left: PoolError is the allowed ending
         return "c07.second-run.fails-although-a-healthy-worker-was-added"
     except vos.Hang:
         return "c07.second-run.blocks-forever"
     except Exception as e:  # noqa
         return "c07.second-run.raises-%s-in-%s" % (type(e).__name__, _inner_fn(e))
     if ret is None:
-        return "c07.second-run.returns-None"
+        return "c07.second-run.returns-None" + ("" if add_worker else "-with-inputs-and-no-worker-left")
     missing, extra = multiset_diff(ret, [poolenv.target(x) for x in inputs])
     if extra:
         return "c07.second-run.result-of-an-earlier-run"
@@ -173,7 +178,7 @@ def _second_run(pool, env, E):
 
 
 _params = OrderedDict([("W", (1, 3)), ("N", (0, 6)), ("E", (0, 2)), ("D", (0, 3)), ("poison", (0, 6)), ("efn", (0, 63)),
-                       ("callsrc", (0, 1)), ("dbl", (0, 1)), ("dup", (0, 2)), ("second", (0, 1)), ("glitch", (0, 1))] + [("s%d" % i, (0, 5)) for i in range(NSCHED)])
+                       ("callsrc", (0, 1)), ("dbl", (0, 1)), ("dup", (0, 2)), ("second", (0, 2)), ("glitch", (0, 1))] + [("s%d" % i, (0, 5)) for i in range(NSCHED)])
 
 _FUNCS = ["pyworkers.pool:Pool.run", "pyworkers.pool:Pool.__init__", "pyworkers.pool:Pool._get_all_workers_ids",
           "pyworkers.pool:Pool._get_all_queues", "pyworkers.pool:Pool._aux_connection"]
@@ -190,12 +195,17 @@ H_RUN = Harness(
         # extra pending 2, a third death, poison on any input, refusing enqueue function, callable input source, two pipes
         # ready at once, pairwise-equal inputs, second run
         "thorough": {"ranges": {"W": (1, 3), "N": (0, 4), "E": (0, 2), "D": (0, 3), "poison": (0, 4), "efn": (0, 3), "dup": (0, 2)},
-                     "partition": ["W", "N", "E", "D", "dup"],
+                     "partition": ["W", "N", "E", "D", "dup", "glitch", "second", "dbl", "efn"],
                      "filter": (lambda f: (f["W"] <= 2 or (f["N"] <= 3 and f["D"] <= 1 and f["E"] <= 1)) and (f["E"] <= 1 or (f["N"] <= 3 and f["D"] <= 1))
-                                and (f["D"] <= 1 or f["N"] <= 2 + (f["D"] == 2)) and (f["dup"] == 0 or (f["N"] in (2, 3) and f["D"] == 1 and f["W"] == 2))),
+                                and (f["D"] <= 1 or f["N"] <= 2 + (f["D"] == 2)) and (f["dup"] == 0 or (f["N"] in (2, 3) and f["D"] == 1 and f["W"] == 2))
+                                and (f["glitch"] > 0) + (f["second"] > 0) + (f["dbl"] > 0) + (f["efn"] > 0) <= 1
+                                and (f["W"] <= 2 or f["second"] + f["dbl"] + f["efn"] == 0)       # three workers: plain runs and glitches only
+                                and (f["second"] == 0 or (f["N"] <= 3 and f["D"] <= 1)) and (f["efn"] == 0 or f["N"] <= 3)),
                      "extra_pre": ["(efn > 0) + (callsrc > 0) + (dbl > 0) + (second > 0) + (poison > 1) + (glitch > 0) <= 1",
-                                   "second == 0 or (N <= 3 and D <= 1)", "efn == 0 or N <= 3"],
-                     "timeout": 1200, "twin_fixed": {"W": 2, "N": 3, "E": 1, "D": 1, "dup": 0}},
+                                   "second == 0 or (N <= 3 and D <= 1)", "efn == 0 or N <= 3",
+                                   # the largest cells (three workers, or two deaths on three inputs) keep the quick-tier menus of poison / input source
+                                   "(W < 3 and D < 2) or N < 2 or (poison <= 1 and callsrc == 0)"],
+                     "timeout": 1200, "twin_fixed": {"W": 2, "N": 3, "E": 1, "D": 1, "dup": 0, "glitch": 0, "second": 0, "dbl": 0, "efn": 0}},
     },
     functions=_FUNCS,
 )
